@@ -40,6 +40,31 @@ Theorem C15_checks_made : forall chk kind us, authorize chk kind us = true ->
   checks_made chk kind us = map (fun p => (perm_for kind (fst p), snd p)) us.
 Proof. exact executes_checks_all. Qed.
 
+(* INSERT statements that also change existing rows: the loop with the extra permissions executes exactly when
+   every reported usage passed its own permission AND, for the write target, every extra one (update for an upsert,
+   delete for INSERT OR REPLACE) *)
+Theorem C15_authz_upsert : forall chk kind ex us, authorize_x chk kind ex us = true <->
+  (forall u t, In (u, t) us -> forall p, In p (perms_of kind ex u) -> chk p t = true).
+Proof. exact authorize_x_iff. Qed.
+
+Theorem C15_authz_upsert_conservative : forall chk kind us, authorize_x chk kind [] us = authorize chk kind us.
+Proof. exact authorize_x_nil. Qed.
+
+(* before the repair an upsert was authorized by the insert permission alone *)
+Theorem C15_old_refuted_upsert :
+  authorize only_insert_t K_insert [(UWrite, 1)] = true /\ only_insert_t PUpdate 1 = false /\
+  authorize_x only_insert_t K_insert (extra_write_perms true false) [(UWrite, 1)] = false /\
+  authorize_x only_insert_t K_insert (extra_write_perms false true) [(UWrite, 1)] = false /\
+  authorize_x only_insert_t K_insert (extra_write_perms false false) [(UWrite, 1)] = true.
+Proof. exact old_refuted_upsert. Qed.
+
+Example C15_upsert_nonvacuous :
+  authorize_x (fun p t => match p with PInsert | PUpdate | PRead => true | _ => false end) K_insert
+              (extra_write_perms true false) [(UWrite, 1); (URead, 2)] = true /\
+  checks_made_x (fun p t => match p with PInsert | PRead => true | _ => false end) K_insert
+              (extra_write_perms true false) [(UWrite, 1); (URead, 2)] = [(PInsert, 1); (PUpdate, 1)].
+Proof. vm_compute. auto. Qed.
+
 (* The property: under a schema that passes both checks, a statement executes only if every table it
    references anywhere had a permission check that passed (read for references, the kind's own write
    permission for its target), and a schema-changing statement only with DSN-administrator authority. *)
